@@ -8,6 +8,7 @@ package c13
 // structural arguments and are always valid; only b is hostile.
 
 import (
+	"crypto/ecdsa"
 	"crypto/x509/pkix"
 	"encoding/asn1"
 	"encoding/pem"
@@ -27,6 +28,9 @@ type entry struct {
 	seeds []string
 	f     func(b []byte) bool
 	kdf   bool // password-based: the work-factor guard screens every mutant
+	// seeds the entry point is expected to refuse although they are valid artefacts (wrong password, other
+	// layout); every other seed must be accepted unmodified, or the sweep from it would be vacuous
+	rejects []string
 	chunk int  // positions per case (default 256); smaller for entry points that cost milliseconds
 }
 
@@ -104,28 +108,42 @@ func catalogue(w *world) []*entry {
 	add("sm2.NewPublicKey", S("sm2.pub.uncompressed", "sm2.pub.compressed"), func(b []byte) bool {
 		_, err := sm2.NewPublicKey(b)
 		return err == nil
-	})
+	}).rejects = S("sm2.pub.compressed")
 	add("sm2.NewPrivateKey", S("sm2.priv.scalar"), func(b []byte) bool {
 		_, err := sm2.NewPrivateKey(b)
 		return err == nil
 	})
-	add("sm2.KeyExchange.ConfirmResponder", S("sm2.kx.sB"), func(b []byte) bool {
+	sm2kx := func() (ini, rsp *sm2.KeyExchange, rB *ecdsa.PublicKey, sB []byte, ok bool) {
 		ini, err := sm2.NewKeyExchange(w.sm2A, &w.sm2B.PublicKey, w.uid, w.uidB, 32, true)
 		rsp, err2 := sm2.NewKeyExchange(w.sm2B, &w.sm2A.PublicKey, w.uidB, w.uid, 32, true)
 		if err != nil || err2 != nil {
-			return false
+			return
 		}
-		rA, err := ini.InitKeyExchange(w.rnd)
+		rA, err := ini.InitKeyExchange(w.kxRand("sm2.A"))
 		if err != nil {
+			return
+		}
+		rB, sB, err = rsp.RepondKeyExchange(w.kxRand("sm2.B"), rA)
+		return ini, rsp, rB, sB, err == nil
+	}
+	add("sm2.KeyExchange.ConfirmResponder", S("sm2.kx.sB"), func(b []byte) bool {
+		ini, _, rB, _, ok := sm2kx()
+		if !ok {
 			return false
 		}
-		rB, _, err := rsp.RepondKeyExchange(w.rnd, rA)
-		if err != nil {
+		_, _, err := ini.ConfirmResponder(rB, b)
+		return err == nil
+	})
+	add("sm2.KeyExchange.ConfirmInitiator", S("sm2.kx.sA"), func(b []byte) bool {
+		ini, rsp, rB, sB, ok := sm2kx()
+		if !ok {
 			return false
 		}
-		_, _, err = ini.ConfirmResponder(rB, b)
-		_, err2 = rsp.ConfirmInitiator(b)
-		return err == nil || err2 == nil
+		if _, _, err := ini.ConfirmResponder(rB, sB); err != nil {
+			return false
+		}
+		_, err := rsp.ConfirmInitiator(b)
+		return err == nil
 	})
 
 	// ---------------------------------------------------------------- ecdh
@@ -147,6 +165,7 @@ func catalogue(w *world) []*entry {
 		k.PublicKey()
 		return true
 	})
+	es[len(es)-2].rejects = S("sm2.pub.compressed")
 
 	// ---------------------------------------------------------------- smx509
 	certSeeds := S("x509.cert.root", "x509.cert.leaf", "x509.cert.rsa", "x509.cert.ecdsa")
@@ -284,14 +303,15 @@ func catalogue(w *world) []*entry {
 		_, _, err := pkcs8.ParsePrivateKey(b, w.pw)
 		return err == nil
 	}).kdf = true
-	add("pkcs8.ParsePrivateKey/wrong-password", S("p8enc.sm.pbes", "p8enc.sm4gcm.pbkdf2-sm3", "p8enc.pbes1.sha1-des", "p8enc.sm4cbc.scrypt"), func(b []byte) bool {
+	wp := add("pkcs8.ParsePrivateKey/wrong-password", S("p8enc.sm.pbes", "p8enc.sm4gcm.pbkdf2-sm3", "p8enc.pbes1.sha1-des", "p8enc.sm4cbc.scrypt"), func(b []byte) bool {
 		_, _, err := pkcs8.ParsePrivateKey(b, w.wrongPw)
 		return err == nil
-	}).kdf = true
+	})
+	wp.kdf, wp.rejects = true, wp.seeds
 	add("pkcs8.ParsePrivateKey/no-password", S("key.pkcs8.sm2", "p8enc.sm.pbes"), func(b []byte) bool {
 		_, _, err := pkcs8.ParsePrivateKey(b, nil)
 		return err == nil
-	})
+	}).rejects = S("p8enc.sm.pbes")
 	add("pkcs8.ParsePKCS8PrivateKey{,SM2,ECDSA,RSA}", S("key.pkcs8.sm2", "key.pkcs8.ecdsa", "key.pkcs8.rsa"), func(b []byte) bool {
 		_, err := pkcs8.ParsePKCS8PrivateKey(b)
 		pkcs8.ParsePKCS8PrivateKeySM2(b)
@@ -370,11 +390,11 @@ func catalogue(w *world) []*entry {
 	add("cfca.OpenEnvelopedMessage", S("cfca.enveloped", "cfca.enveloped.legacy"), func(b []byte) bool {
 		_, err := cfca.OpenEnvelopedMessage(b, w.leaf, w.sm2B)
 		return err == nil
-	})
+	}).rejects = S("cfca.enveloped.legacy")
 	add("cfca.OpenEnvelopedMessageLegacy", S("cfca.enveloped.legacy", "cfca.enveloped"), func(b []byte) bool {
 		_, err := cfca.OpenEnvelopedMessageLegacy(b, w.leaf, w.sm2B)
 		return err == nil
-	})
+	}).rejects = S("cfca.enveloped")
 	add("cfca.VerifyMessageAttach", S("cfca.signed.attach"), func(b []byte) bool { return cfca.VerifyMessageAttach(b) == nil })
 	add("cfca.VerifyMessageDetach", S("cfca.signed.detach"), func(b []byte) bool { return cfca.VerifyMessageDetach(b, w.msg) == nil })
 	add("cfca.VerifyDigestDetach", S("cfca.signed.digest"), func(b []byte) bool { return cfca.VerifyDigestDetach(b, w.digest) == nil })
@@ -485,34 +505,35 @@ func catalogue(w *world) []*entry {
 	slow(add("sm9.KeyExchange.RespondKeyExchange", S("sm9.kx.rA"), func(b []byte) bool {
 		rsp := w.encUserB.NewKeyExchange(w.uidB, w.uid, 16, true)
 		defer rsp.Destroy()
-		_, _, err := rsp.RespondKeyExchange(w.rnd, 3, b)
+		_, _, err := rsp.RespondKeyExchange(w.kxRand("sm9.B"), 3, b)
 		return err == nil
 	}))
 	slow(add("sm9.KeyExchange.ConfirmResponder/rB", S("sm9.kx.rB"), func(b []byte) bool {
 		ini := w.encUser.NewKeyExchange(w.uid, w.uidB, 16, true)
 		defer ini.Destroy()
-		if _, err := ini.InitKeyExchange(w.rnd, 3); err != nil {
+		if _, err := ini.InitKeyExchange(w.kxRand("sm9.A"), 3); err != nil {
 			return false
 		}
 		_, _, err := ini.ConfirmResponder(b, w.get("sm9.kx.sB").data)
 		return err == nil
 	}))
-	slow(add("sm9.KeyExchange.ConfirmResponder/sB+ConfirmInitiator", S("sm9.kx.sB"), func(b []byte) bool {
+	slow(add("sm9.KeyExchange.ConfirmResponder/sB", S("sm9.kx.sB"), func(b []byte) bool {
 		ini := w.encUser.NewKeyExchange(w.uid, w.uidB, 16, true)
-		rsp := w.encUserB.NewKeyExchange(w.uidB, w.uid, 16, true)
 		defer ini.Destroy()
+		if _, err := ini.InitKeyExchange(w.kxRand("sm9.A"), 3); err != nil {
+			return false
+		}
+		_, _, err := ini.ConfirmResponder(w.get("sm9.kx.rB").data, b)
+		return err == nil
+	}))
+	slow(add("sm9.KeyExchange.ConfirmInitiator", S("sm9.kx.sA"), func(b []byte) bool {
+		rsp := w.encUserB.NewKeyExchange(w.uidB, w.uid, 16, true)
 		defer rsp.Destroy()
-		rA, err := ini.InitKeyExchange(w.rnd, 3)
-		if err != nil {
+		if _, _, err := rsp.RespondKeyExchange(w.kxRand("sm9.B"), 3, w.get("sm9.kx.rA").data); err != nil {
 			return false
 		}
-		rB, _, err := rsp.RespondKeyExchange(w.rnd, 3, rA)
-		if err != nil {
-			return false
-		}
-		_, _, err = ini.ConfirmResponder(rB, b)
-		_, err2 := rsp.ConfirmInitiator(b)
-		return err == nil || err2 == nil
+		_, err := rsp.ConfirmInitiator(b)
+		return err == nil
 	}))
 
 	// ---------------------------------------------------------------- padding
